@@ -53,13 +53,35 @@ TEXT['C10'] = dict(
 BOUNDED_NOTE = ('Bounded: the real classes run on a thread-per-rank simulated MPI (vf/shim) that checks collective matching; '
                 'the bound is stated in the evidence; nothing here is counted as proved. ')
 TEXT['C01'] = dict(
-    category='other',
-    text='Bounded stand-in only so far: the real LayoutHandler.transpose is executed on a simulated MPI for every ordered pair of '
-         'layouts of production and seeded random layout sets (ranks 2-4, uneven extents, n==p, grids with leading extent 1, '
-         'with/without buffer, float/complex/int) and every rank block is compared with the global field; source-intact is checked. '
-         'The deductive view-model proof of the transpose helpers is not built yet, hence level other.',
-    note=BOUNDED_NOTE + 'Found and fixed a genuine defect this way (fix: 83dc206).',
-    technique='bounded run-time checking of the real code under simulated MPI (stand-in for the planned view-model proof)')
+    category='proof',
+    text='Three layers, all on the real text of pygyro/model/layout.py. (1) LayoutHandler.transpose, _transposeRedirect and '
+         '_transposeRedirect_source_intact (routes of 0-4 steps, with/without buffer, buffer parity) are verified over opaque '
+         'buffers whose ghost content is "holds field G in layout L", modular on the single-step contract. (2) The single-step '
+         'functions are verified in a flat-buffer model (flat arrays read and written through C-order lenses, numpy split / '
+         'reshape / transpose / sliced assignment as live views): _extract_from_source (block b of the send buffer = the padded, '
+         'swapped sub-block of the source), _rearrange_from_buffer (Alltoall + unpacking loop and the no-padding fast branch) and '
+         '_transpose / _transpose_source_intact, whose postcondition is the property itself: every local position of the '
+         'destination block holds the global field (an uninterpreted function of the global index) at its global index, and the '
+         'source block is untouched when a buffer is given (frame). The in-process branch (positions not distributed) is proved as '
+         'a plain transposition. Extents, process counts, block lengths/starts and the rank are symbolic; the structure (rank 2-4, '
+         'the two orderings, which leading positions are distributed) is one case each: quick = two production pairs incl. the '
+         '(1,n)-grid case of the repaired defect, one rank-3 3-cycle pair, a seeded production pair and three in-process pairs; '
+         'thorough = all seven production pairs, ranks 2-4 with non-involutive permutations and seeded random compatible pairs. '
+         '(3) The addressing facts the solver is given about row-major flat indices (bounds, injectivity, block concatenation, '
+         'multiplicativity of the element count) are proved from the definition for ranks 2-4 on every run, as are the tiling '
+         'lemmas (ordered, bounded, covering; by induction) that turn the C02 chain form into the closed forms used. The bounded '
+         'part runs the real handler on a simulated MPI for every ordered pair of production and random layout sets.',
+    note=PROOF_NOTE + 'Assumed: the MPI_Alltoall contract (equal counts; chunk r of the receive buffer is chunk me of member r\'s send '
+         'buffer); SPMD assume/guarantee - each member\'s send buffer has the form that is PROVED for this rank\'s '
+         '_extract_from_source (same code, block holding the field), assumed for the peers; distinct array arguments do not overlap '
+         '(documented requirement of transpose); the layouts of one handler describe the same process (same starts on positions '
+         'distributed alike, rank in the sub-communicator = coordinate) - each layout alone is C02; array elements are reals '
+         '(the code is dtype-agnostic, complex/int payloads are exercised by the bounded part only). Not under contract: '
+         '_makeConnectionMap (route map) and _get_swap_axes for orderings outside the structural cases - bounded part. The link '
+         'between the ghost predicate "holds G in L" of layer 1 and the flat-model theorem of layer 2 is by reading (same statement). '
+         'Found and fixed a genuine defect (fix: 83dc206); the pre-fix text is refuted at the predicted obligations.',
+    technique='sidecar contracts; symbolic execution with opaque ghost buffers (dispatch) and flat-view lenses with uninterpreted '
+              'row-major addressing + proved lemmas (helpers); assume/guarantee over Alltoall; z3 5.1, z3 4.8, cvc5')
 TEXT['C02'] = dict(
     category='proof',
     text='Layout.__init__ is executed symbolically for every ordering of rank 2-4 and 1-2 given process counts (structural cases; '
